@@ -175,6 +175,45 @@ theorem default_storage_after_validate (s : State) (c : Cfg) (e : Env) :
     (validate c e s).1.dstor = storOf s.cur :=
   validate_dstor c e s
 
+/-! ### the process-wide default logger -/
+
+/-- **accepted ⇒ the process default logger (caddy.Log()) is the new configuration's default log** -/
+theorem accepted_sets_default_logger (s : State) (c : Cfg) (e : Env) (h : (changeTo c e s).2 = .ok) :
+    (changeTo c e s).1.dlogger = s.next + 1 := by
+  rcases changeTo_cases c e s with ⟨_, h'⟩ | h' | ⟨s1, hq, h'⟩ | ⟨s1, r, hok, hq, h'⟩
+  · rw [h'] at h; cases h
+  · rw [h'] at h; cases h
+  · rw [h']
+    obtain ⟨s', ctx, hrun, rfl⟩ := decodeAndRun_ok hq
+    have hd := run_dlogger s.next c e { s with raw := some c }
+    rw [hrun] at hd
+    show (unsyncedStop _ _).dlogger = _
+    rw [unsyncedStop_dlogger]; exact hd
+  · rw [h'] at h; exact absurd h hok
+
+/-- **default logger, PARTIAL** (the full statement "a rejected attempt and a dry run leave the
+    process default logger alone" is refuted in Witness.lean: `default_logger_full_fails`, finding
+    F22). Proved: an attempt that is answered before anything runs (unknown top-level field, `"@id"`
+    of the wrong type) does not touch it. Excluded, explicitly: every attempt that enters run() —
+    `entered_run_moves_default_logger` shows those ALWAYS leave it at their own default log. -/
+theorem default_logger_partial (s : State) (c : Cfg) (e : Env) (h : c.top = 1 ∨ c.top = 2) :
+    (changeTo c e s).1.dlogger = s.dlogger := by
+  unfold changeTo
+  split
+  · rfl
+  · split
+    · rfl
+    · rename_i h2
+      have h1 : c.top = 1 := by rcases h with h | h; exact h; exact absurd h h2
+      unfold decodeAndRun
+      simp [h1]
+
+/-- the code as it is: whatever enters run() — accepted or rejected, wherever it fails — and every
+    Validate leaves the process default logger at the default log of the context it built -/
+theorem entered_run_moves_default_logger (s : State) (c : Cfg) (e : Env) :
+    (run s.next c e s).1.dlogger = s.next + 1 ∧ (validate c e s).1.dlogger = s.next + 1 :=
+  ⟨run_dlogger s.next c e s, validate_dlogger c e s⟩
+
 /-! ### every history -/
 
 /-- **history_atomic** (full strength). For EVERY history of load / partial-change / malformed /
@@ -256,6 +295,10 @@ example : (changeTo ⟨2, [], [], ⟨0, 1⟩⟩ exEnv exState).2 = .errIndex := 
 example : (changeTo ⟨0, [], [⟨3, 9, 6, [2, 4], []⟩], ⟨0, 0⟩⟩ ⟨true, false, 0, [], [3], [3]⟩ exState).2 = .errStart ∧
     answers (changeTo ⟨0, [], [⟨3, 9, 6, [2, 4], []⟩], ⟨0, 0⟩⟩ ⟨true, false, 0, [], [3], [3]⟩ exState).1 = answers exState ∧
     (bindAll 1 ⟨3, 9, 6, [2, 4], []⟩ [] [2, 4] exState).2 = true := by decide
+-- default logger: in exState the running config (operation 0) owns it; an accepted attempt takes it
+example : exState.dlogger = 1 ∧ exState.next = 1 ∧
+    (changeTo ⟨0, [], [⟨0, 5, 0, [2], []⟩], ⟨0, 0⟩⟩ exEnv exState).1.dlogger = 2 ∧
+    (changeTo ⟨1, [], [], ⟨0, 0⟩⟩ exEnv exState).1.dlogger = 1 := by decide
 -- "unchanged"
 example : (changeTo exOld ⟨false, false, 0, [], [], []⟩ exState).2 = .same := by decide
 -- the HTTP app's Start fails at its SECOND listener (address 1 held by somebody else, address 2
